@@ -4,6 +4,8 @@
 -/
 import EG.Lemmas.Ellipse
 import EG.Lemmas.CirclePoints
+set_option linter.unreachableTactic false
+set_option linter.unusedTactic false
 namespace EG
 namespace Ellipse
 
@@ -39,7 +41,7 @@ theorem ScanlinesIt.nextFuel_spec : ∀ (fuel : Nat) (it : ScanlinesIt), (it.yEn
       cases hr : it.row it.y with
       | some s =>
         simp only
-        refine ⟨by rfl, by rfl, ?_⟩
+        refine ⟨by first | rfl | trivial, by first | rfl | trivial, ?_⟩
         unfold ScanlinesIt.rest
         rw [irange_cons hy, List.filterMap_cons, hr]
         rfl
@@ -53,7 +55,7 @@ theorem ScanlinesIt.nextFuel_spec : ∀ (fuel : Nat) (it : ScanlinesIt), (it.yEn
           rfl
         rw [e]; exact h3
     · simp only [hy, ↓reduceIte]
-      refine ⟨by rfl, by rfl, ?_⟩
+      refine ⟨by first | rfl | trivial, by first | rfl | trivial, ?_⟩
       unfold ScanlinesIt.rest
       rw [irange_empty (a := it.y) (b := it.yEnd) (by omega)]
       rfl
